@@ -108,7 +108,8 @@ class _FilesystemDataSource(DataSource):
         escaped_key = self._escape_key(key.key)
         dirname = os.path.dirname(escaped_key)
         basename = os.path.basename(escaped_key)
-        if metadata_key:
+        if metadata_key is not None:
+            # (an empty metadata key is a key like any other: it must not resolve to the object itself)
             metafile = "{}.meta.{}".format(basename, metadata_key)
             return self.base_path.joinpath(dirname, ".versions", key.version, metafile)
         else:
